@@ -105,3 +105,21 @@ Qed.
 Theorem C05_premise_checked : forall s, bridge_inv_b s = true -> bridge_inv s.
 Proof. exact bridge_inv_b_sound. Qed.
 Print Assumptions C05_premise_checked.
+
+(* the threshold tests are float64 comparisons in the code, float64(power) / float64(total) >= 0.7 (and < 0.7 for the
+   "can no longer succeed" branch). In IEEE-754 binary64 as formalised by Flocq — the two integers exactly representable,
+   the division correctly rounded, the constant 0.7 rounded to nearest-even — they are exactly the rational tests of the
+   model, for totals up to 2^40 (voting power is counted in whole rowan, the supply is a few 10^9). These two theorems use the
+   standard library's real numbers: their axioms are what Print Assumptions lists. *)
+From Coq Require Import Reals.
+From Sif Require Import Proofs.FloatThreshold.
+
+Theorem C05_threshold_is_the_float_test : forall p q, 0 < q <= 2 ^ 40 ->
+  (ratio_ge p q = true <-> (rnd64 (7 / 10) <= rnd64 (IZR p / IZR q))%R).
+Proof. exact ratio_ge_is_float. Qed.
+Print Assumptions C05_threshold_is_the_float_test.
+
+Theorem C05_failure_test_is_the_float_test : forall p q, 0 < q <= 2 ^ 40 ->
+  (ratio_lt p q = true <-> (rnd64 (IZR p / IZR q) < rnd64 (7 / 10))%R).
+Proof. exact ratio_lt_is_float. Qed.
+Print Assumptions C05_failure_test_is_the_float_test.
